@@ -11,8 +11,12 @@ correspondence: kawin/thermo/Mobility.py and FreeEnergyHessian.py are run on duc
                 result is checked to be a right inverse in every case); outputs compared inside Coq.
 search:         an independent oracle written from the property text: chemical potentials of a closed-form
                 sublattice solution differentiated numerically in 70-digit arithmetic (no bordered matrix),
-                Darken's formula, flux sums, eigenvalues; and - labelled SAMPLING, not proof - the same
-                predicates on the shipped databases through pycalphad.
+                Darken's formula, flux sums, eigenvalues; functions attached through the public setters
+                (setMobility / setDiffusivity: one function, dict of different functions, element= form) and the
+                phase= argument of getTracerDiffusivity / getInterdiffusivity on a scripted two-phase thermodynamics
+                object (the value for phase P must come from the functions attached to P); and - labelled SAMPLING,
+                not proof - the same predicates on the shipped databases through pycalphad, Fe-Cr-Ni also through
+                phase='BCC_A2'.
 """
 import copy, json, types, itertools
 from decimal import Decimal as Dm, getcontext
@@ -225,8 +229,9 @@ def _simplex(rng, n, lo):
     return w
 
 
-def gen_layout(rng, kind):
-    nsub = int(rng.choice([1, 2, 3, 4], p=[0.08, 0.37, 0.4, 0.15]))
+def gen_layout(rng, kind, quick=False):
+    # (the exact inverse of the bordered matrix dominates the run time: fewer 5-6 element systems in the quick tier)
+    nsub = int(rng.choice([1, 2, 3, 4], p=[0.08, 0.44, 0.42, 0.06] if quick else [0.08, 0.37, 0.4, 0.15]))
     nint = 0 if kind == 'exact' else int(rng.choice([0, 1, 2], p=[0.55, 0.33, 0.12]))
     if nsub + nint < 2:
         nsub = 2
@@ -243,7 +248,7 @@ def gen_case(rng, idx, quick, kind=None):
        singular  two elements with identical formula-unit data: the bordered matrix has no inverse"""
     if kind is None:
         kind = str(rng.choice(['exact', 'random', 'stub', 'singular'], p=[0.2, 0.4, 0.36, 0.04]))
-    subs, ints = gen_layout(rng, kind)
+    subs, ints = gen_layout(rng, kind, quick)
     if kind == 'singular' and len(subs) < 2:
         subs = sorted(set(subs) | {'NI', 'FE'})[:2]
     els = sorted(subs + ints)
@@ -270,6 +275,9 @@ def gen_case(rng, idx, quick, kind=None):
     svval = {'GE': 0.0, 'N': 1.0, 'P': 101325.0, 'T': Tk}
     c.update(variables=variables, svs=svs, T=Tk)
     nsv, p = len(svs), len(variables)
+    if quick and p + len(set(s_ for _, s_ in variables)) + n + 1 > 13:
+        # the exact inverse costs ~N^4.5: bordered matrices larger than 13 x 13 (0.5 s) are left to the thorough tier (16 x 16: 15 s)
+        return gen_case(rng, idx, quick, kind)
     # ---- site fractions and mole fractions
     y = np.zeros(p)
     groups = {}
@@ -388,6 +396,10 @@ def gen_case(rng, idx, quick, kind=None):
     # user element order for the Thermodynamics wrappers: reference first, solutes in any order
     sol = [e for i, e in enumerate(els) if i != c['ref']]
     c['user_solutes'] = [sol[i] for i in rng.permutation(len(sol))]
+    # functions of temperature the user attaches through setMobility / setDiffusivity: A_e * exp(-Q_e / (R T)), different
+    # for every element and for each of the two phases of the scripted thermodynamics object
+    c['user_fn'] = {ph: {'A': [float(10 ** rng.uniform(-12, -4)) for _ in els], 'Q': [float(rng.uniform(5e4, 3e5)) for _ in els]} for ph in PHASES}
+    c['user_fn']['order'] = [int(i) for i in rng.permutation(n)]
     return c
 
 
@@ -471,6 +483,184 @@ class FakeTherm:
         return _T(c)
 
 
+PHASES = ['MATRIX', 'SECOND']
+
+
+def std_case(c):
+    """the same composition set with the state variables in kawin's own order (GE, N, P, T): the public setters wrap the
+    user's f(T) as  lambda dof: f(dof[stateVariables.index(T)])"""
+    n0, p = len(c['svs']), len(c['variables'])
+    d = {k: v for k, v in c.items() if k != 'stub'}
+    d['svs'] = ['GE', 'N', 'P', 'T']
+    d['dof'] = [0.0, 1.0, 101325.0, c['T']] + list(c['dof'][n0:])
+
+    def cols(A):
+        A = np.atleast_2d(np.asarray(A, float))
+        out = np.full((A.shape[0], 4 + p), 7.0)        # state-variable columns: must be ignored
+        out[:, 4:] = A[:, n0:]
+        return out
+    d2 = np.full((4 + p, 4 + p), -3.0)
+    d2[4:, 4:] = np.asarray(c['d2g'], float)[n0:, n0:]
+    d['d2g'] = d2.tolist()
+    d['dg'] = cols([c['dg']])[0].tolist()
+    d['dxdy'] = cols(c['dxdy']).tolist()
+    cons = cols(c['cons'])
+    cons[:, :4] = 0.0
+    d['cons'] = cons.tolist()
+    return d
+
+
+def user_value(c, ph, a, T):
+    """value at temperature T of the function attached to element a (alphabetical position) in phase ph"""
+    return c['user_fn'][ph]['A'][a] * np.exp(-c['user_fn'][ph]['Q'][a] / (RGAS * T))
+
+
+def user_function(c, ph, a):
+    A, Q = c['user_fn'][ph]['A'][a], c['user_fn'][ph]['Q'][a]
+    return lambda T: A * np.exp(-Q / (RGAS * T))
+
+
+def run_setters(c):
+    """public setters and the phase= argument: a scripted two-phase GeneralThermodynamics (each phase with its own
+    functions, vacancy convention and database callables); returns one record per (path, mode, phase argument)"""
+    from kawin.thermo.Thermodynamics import GeneralThermodynamics
+    from kawin.thermo import Mobility as MB
+    cstd = std_case(c)
+    els = c['elements']
+    user_all = [els[c['ref']]] + list(c['user_solutes'])
+    vps = {'MATRIX': c['vp'], 'SECOND': not c['vp']}
+
+    class _T(GeneralThermodynamics):
+        def __init__(self):
+            self.elements = user_all + ['VA']
+            self.numElements = len(self.elements) - 1
+            self.phases = list(PHASES)
+            self._diffusivity_cache = {}
+            self.mobCallables = {ph: None for ph in PHASES}
+            self.diffCallables = {ph: None for ph in PHASES}
+            self.mobility_correction = {e: f for e, f in zip(els, corr_vec(c))}
+            self.mobility_correction['VA'] = 1
+            self.vacancyPoorInterstitialSublattice = dict(vps)
+            self._parameters = {}
+            self.requested = []
+
+        def getLocalEq(self, x, T, gExtra=0, precPhase=None, composition_sets=None):
+            self.requested.append(list(precPhase) if isinstance(precPhase, (list, tuple)) else precPhase)
+            return types.SimpleNamespace(chemical_potentials=np.array(c['mu'])), [FakeCS(cstd)]
+
+    recs = []
+    x = [0.1] * (len(els) - 1)
+    xq = x if len(x) > 1 else x[0]
+    T = c['T']
+    for path in ('mob', 'diff'):
+        for mode in ('single', 'dict', 'element'):
+            th = _T()
+            setter = th.setMobility if path == 'mob' else th.setDiffusivity
+            store = th.mobCallables if path == 'mob' else th.diffCallables
+            for ph in PHASES:
+                if mode == 'single':
+                    setter(user_function(c, ph, 0), ph)
+                elif mode == 'dict':
+                    setter({e: user_function(c, ph, els.index(e)) for e in user_all}, ph)
+                else:
+                    # callables as read from a database (functions of the dof array), then every element replaced in turn
+                    store[ph] = {e: (lambda dof, m=m: m) for e, m in zip(els, c['raw'])}
+                    for a in c['user_fn']['order']:
+                        setter({e: user_function(c, ph, els.index(e)) for e in user_all}, ph, element=els[a])
+            for arg in (None, 'MATRIX', 'SECOND'):
+                P = arg or 'MATRIX'
+                rec = {'path': path, 'mode': mode, 'phase_arg': arg, 'err': None}
+                try:
+                    th.requested = []
+                    rec['tr'] = np.atleast_1d(np.array(th.getTracerDiffusivity(xq, T, phase=arg), float)).tolist()
+                    rec['D'] = np.atleast_2d(np.array(th.getInterdiffusivity(xq, T, phase=arg), float)).tolist()
+                    rec['requested'] = th.requested
+                    if path == 'mob':
+                        # Mobility.interdiffusivity (tied to the Coq model by the correspondence) with the user's own values
+                        for Q in PHASES:
+                            vals = [user_value(c, Q, 0 if mode == 'single' else a, T) for a in range(len(els))]
+                            D, _ = MB.interdiffusivity(np.array(c['mu']), FakeCS(cstd), els[c['ref']], {e: (lambda dof, m=m: m) for e, m in zip(els, vals)},
+                                                       corr_of(c), vacancy_poor_interstitial_sublattice=vps[Q])
+                            rec['D_direct_' + Q] = np.array(D).tolist()
+                except Exception as e:
+                    rec['err'] = err_enum(e) + ': ' + str(e)[:200]
+                recs.append(rec)
+    return recs
+
+
+def setter_oracle(c, im):
+    """tracer diffusivity of element e = R*T*M_e (or D_e) computed from the function the user attached to e in the phase
+    that was asked for; interdiffusivity from those same functions; Darken for a binary; -> (clause, site, cls, message)"""
+    v = []
+    els, n, r, T = c['elements'], c['n'], c['ref'], c['T']
+    user_all = [els[r]] + list(c['user_solutes'])
+    corr = corr_vec(c)
+    nr = [i for i in range(n) if i != r]
+    names = {('mob', 'single'): 'setMobility(function)', ('mob', 'dict'): 'setMobility(dict of functions)', ('mob', 'element'): 'setMobility(dict, element=)',
+             ('diff', 'single'): 'setDiffusivity(function)', ('diff', 'dict'): 'setDiffusivity(dict of functions)', ('diff', 'element'): 'setDiffusivity(dict, element=)'}
+    seen = set()
+    for rec in im.get('sp') or []:
+        path, mode, arg = rec['path'], rec['mode'], rec['phase_arg']
+        P = arg or 'MATRIX'
+        other = [q for q in PHASES if q != P][0]
+        how = names[(path, mode)]
+        if rec['err']:
+            if not rec['err'].startswith('LinAlgError'):
+                v.append(('no_internal_error', SITE_T, how, '%s then getTracerDiffusivity/getInterdiffusivity(phase=%r) raised %s' % (how, arg, rec['err'])))
+            continue
+        if any(q != [P] for q in rec['requested']):
+            v.append(('phase_callables', SITE_T, 'local equilibrium', 'phase=%r: the local equilibrium was requested for %r' % (arg, rec['requested'])))
+
+        def val(Q, a):
+            return corr[a] * user_value(c, Q, 0 if mode == 'single' else a, T) * (RGAS * T if path == 'mob' else 1.0)
+        want = np.array([val(P, els.index(e)) for e in user_all])
+        wrong = np.array([val(other, els.index(e)) for e in user_all])
+        got = np.array(rec['tr'])
+        if got.shape != want.shape or not np.allclose(got, want, rtol=1e-12, atol=0):
+            k = int(np.argmax(np.abs(got - want) / want)) if got.shape == want.shape else 0
+            if got.shape == wrong.shape and np.allclose(got, wrong, rtol=1e-12, atol=0):
+                key = ('phase_callables', 'getTracerDiffusivity')
+                msg = 'getTracerDiffusivity(phase=%r) returns %r: these are the values of phase %s; the functions attached to phase %s give %r (elements %r, T=%r)' % (arg, got.tolist(), other, P, want.tolist(), user_all, T)
+            else:
+                key = ('tracer_is_RTM', how)
+                msg = '%s on phase %s: tracer diffusivity of %s is %r, the function attached to %s gives %s = %r (all: got %r, expected %r, T=%r)' % (
+                    how, P, user_all[k], float(got[k]) if got.shape == want.shape else None, user_all[k], 'R*T*M' if path == 'mob' else 'D', float(want[k]), got.tolist(), want.tolist(), T)
+            if key not in seen:
+                seen.add(key)
+                v.append((key[0], SITE_T, key[1], msg))
+        # interdiffusivity, entries labelled by the user's solutes
+        D = np.array(rec['D'])
+        idx = [nr.index(els.index(e)) for e in c['user_solutes']]
+
+        def expectD(Q):
+            if path == 'mob':
+                return np.array(rec['D_direct_' + Q])[np.ix_(idx, idx)]
+            return np.diag([val(Q, els.index(e)) for e in c['user_solutes']])
+        wantD, wrongD = expectD(P), expectD(other)
+        if D.shape != wantD.shape or not np.allclose(D, wantD, rtol=1e-9, atol=1e-12 * np.max(np.abs(wantD))):
+            if D.shape == wrongD.shape and np.allclose(D, wrongD, rtol=1e-9, atol=1e-12 * np.max(np.abs(wrongD))):
+                key = ('phase_callables', 'getInterdiffusivity')
+                msg = 'getInterdiffusivity(phase=%r) returns %r: computed with the functions of phase %s; those of phase %s give %r' % (arg, D.tolist(), other, P, wantD.tolist())
+            else:
+                key = ('interdiffusivity_from_user_functions', how)
+                msg = '%s on phase %s: getInterdiffusivity returns %r, the functions attached to the elements give %r (solutes %r)' % (how, P, D.tolist(), wantD.tolist(), c['user_solutes'])
+            if key not in seen:
+                seen.add(key)
+                v.append((key[0], SITE_T, key[1], msg))
+        # binary, mobilities: Darken with the numerically differentiated thermodynamic factor of the closed-form solution
+        st = c.get('stub')
+        if st and n == 2 and not any(c['inter']) and path == 'mob':
+            Pfd = np.array(st['P_fd'])
+            X = np.array(c['X'])
+            a = 1 - r
+            phi = X[a] / (RGAS * T) * (Pfd[a, a] - Pfd[a, r])
+            wantDk = (X[r] * val(P, a) + X[a] * val(P, r)) * phi
+            if abs(D[0, 0] - wantDk) > 1e-6 * abs(wantDk) and ('binary_darken', how) not in seen:
+                seen.add(('binary_darken', how))
+                v.append(('binary_darken', SITE_T, how, '%s on phase %s: binary interdiffusivity %r, Darken combination of the tracer diffusivities of the attached functions and the thermodynamic factor %r' % (how, P, float(D[0, 0]), float(wantDk))))
+    return v
+
+
 def run_impl(c):
     from kawin.thermo import Mobility as MB, FreeEnergyHessian as FH
     out = {'err': None}
@@ -521,6 +711,8 @@ def run_impl(c):
         th.diffCallables['MATRIX'], th.mobCallables['MATRIX'] = th.mobCallables['MATRIX'], None
         out['Dd_user'] = np.atleast_2d(np.array(th.getInterdiffusivity(x if len(x) > 1 else x[0], c['T'])))
         out['trd_user'] = np.atleast_1d(np.array(th.getTracerDiffusivity(x if len(x) > 1 else x[0], c['T'])))
+        if 'user_fn' in c:
+            out['sp'] = run_setters(c)
     except Exception as e:
         out['wrap_err'] = err_enum(e) + ': ' + str(e)[:200]
         # inverseMobility inverts the interdiffusivity: LinAlgError means that matrix is singular (undefined curvature,
@@ -704,6 +896,8 @@ def oracle(c, im):
     # (4) outputs of the Thermodynamics wrappers are labelled by the user's element order
     if im['D_user'] is None:
         return v
+    # (5) functions attached through the public setters, and the phase= argument
+    v += setter_oracle(c, im)
     user_all = [els[r]] + list(c['user_solutes'])
     for k, e in enumerate(user_all):
         want = RGAS * c['T'] * M[els.index(e)]
@@ -801,10 +995,15 @@ def database_sampling(ctx, quick):
         ('Fe-Cr-Ni', ds.FECRNI_DB, ['FE', 'CR', 'NI'], ['FCC_A1', 'BCC_A2'], [(0.05, 0.3), (0.05, 0.3)], (1200, 1500)),
         ('Al-Mg-Si', ds.ALMGSI_DB, ['AL', 'MG', 'SI'], ['FCC_A1', 'MGSI_B_P'], [(1e-4, 0.01), (1e-4, 0.01)], (450, 800)),
         ('Cu-Ti', cutipath, ['CU', 'TI'], ['FCC_A1', 'CU4TI'], [(1e-3, 0.03)], (700, 1100)),
+        # the second phase of a system in which two phases carry mobility models, addressed through phase=
+        ('Fe-Cr-Ni phase=BCC_A2', ds.FECRNI_DB, ['FE', 'CR', 'NI'], ['FCC_A1', 'BCC_A2'], [(0.15, 0.35), (0.005, 0.03)], (1100, 1400), 1),
+        ('Fe-Cr-Ni phase=FCC_A1', ds.FECRNI_DB, ['FE', 'CR', 'NI'], ['FCC_A1', 'BCC_A2'], [(0.05, 0.3), (0.05, 0.3)], (1200, 1500), 0),
     ]
     npts = 5 if quick else 60
     stats = ctx.notes.setdefault('database_sampling', {})
-    for (name, db, els, phases, ranges, (T0, T1)) in systems:
+    for entry in systems:
+        (name, db, els, phases, ranges, (T0, T1)) = entry[:6]
+        phase_index = entry[6] if len(entry) > 6 else None
         st = stats.setdefault(name, {'points': 0, 'stable': 0, 'skipped_not_converged': 0, 'max_rel_fd_error': 0.0,
                                      'max_rel_asymmetry': 0.0, 'min_eig_dMudX': None, 'min_eig_D': None})
         try:
@@ -812,7 +1011,8 @@ def database_sampling(ctx, quick):
         except Exception as e:
             ctx.violation('database_sampling', {'site': SITE_T, 'cls': 'load ' + name}, {'error': str(e)}, 'cannot load %s: %s' % (name, e), no_input=True)
             continue
-        ph = th.phases[0]
+        ph = th.phases[phase_index or 0]
+        phase_arg = None if phase_index is None else ph         # None: the documented default (first phase)
         nsol = len(els) - 1
         alpha = sorted(els)
         r = alpha.index(els[0])
@@ -837,8 +1037,8 @@ def database_sampling(ctx, quick):
                     mm = None
                     Dalpha = MB.tracer_diffusivity_from_diff(cs, th.diffCallables[ph], dict(th.mobility_correction))
                 Xa = np.array(cs.X, float)
-                D = np.atleast_2d(th.getInterdiffusivity(x if nsol > 1 else x[0], T))
-                tr = np.atleast_1d(th.getTracerDiffusivity(x if nsol > 1 else x[0], T))
+                D = np.atleast_2d(th.getInterdiffusivity(x if nsol > 1 else x[0], T, phase=phase_arg))
+                tr = np.atleast_1d(th.getTracerDiffusivity(x if nsol > 1 else x[0], T, phase=phase_arg))
                 # numerical derivative of the equilibrium chemical potentials (user order of x)
                 Hfd = np.zeros((nsol, nsol))
                 for j in range(nsol):
@@ -886,12 +1086,25 @@ def database_sampling(ctx, quick):
                                   '%s at x=%r T=%r: interdiffusivity eigenvalues %r' % (name, x, T, evD.tolist()))
             st['parameters'] = 'mobility' if has_mob else 'diffusivity'
             if has_mob:
+                # interdiffusivity = (volume-fixed Onsager matrix of THIS phase's mobilities) * (numerically differentiated
+                # curvature), C10_ternary_LH / Darken written for any number of substitutional elements
+                Xu = np.array([Xa[alpha.index(e)] for e in els])
+                Mu = np.array([Malpha[alpha.index(e)] for e in els])
+                L = np.array([[sum(((1.0 if c_ == i else 0.0) - Xu[c_]) * ((1.0 if k_ == i else 0.0) - Xu[k_]) * Xu[i] * Mu[i] for i in range(len(els)))
+                               for k_ in range(1, len(els))] for c_ in range(1, len(els))])
+                DLH = L @ Hfd
+                if np.max(np.abs(D - DLH)) > 2e-3 * np.max(np.abs(DLH)):
+                    others = [q for q in th.phases if q != ph and th.mobCallables.get(q) is not None]
+                    ctx.violation('interdiffusivity_is_LH', {'site': SITE_T, 'cls': 'database ' + name},
+                                  {'kind': 'input', 'database_point': pt, 'observed': D.tolist(), 'expected': DLH.tolist(), 'phase': ph, 'other_phases_with_mobility': others},
+                                  '%s at x=%r T=%r: getInterdiffusivity(phase=%r) = %r, Onsager matrix of the mobilities of %s times the numerical curvature = %r'
+                                  % (name, x, T, phase_arg, D.tolist(), ph, DLH.tolist()))
                 # tracer = R T M > 0, labelled by the user's element order
                 for i, e in enumerate(els):
                     want = RGAS * T * Malpha[alpha.index(e)]
                     if not (tr[i] > 0 and abs(tr[i] - want) <= 1e-10 * want):
                         ctx.violation('tracer_is_RTM', {'site': SITE_T, 'cls': 'database ' + name}, {'kind': 'input', 'database_point': pt, 'observed': tr.tolist()},
-                                      '%s at x=%r T=%r: tracer diffusivity of %s is %r, R*T*M = %r' % (name, x, T, e, float(tr[i]), float(want)))
+                                      '%s at x=%r T=%r: getTracerDiffusivity(phase=%r): tracer diffusivity of %s is %r, R*T*M of that phase = %r' % (name, x, T, phase_arg, e, float(tr[i]), float(want)))
                         break
                 # zero flux sum in the volume-fixed frame
                 col = np.sum(mm, axis=0)
@@ -928,7 +1141,7 @@ def run(ctx):
                        'mobility_correction dictionaries; plus sampled points of the shipped databases; a case is non-trivial when it has at '
                        'least two substitutional elements (database points always); distinct by hash of the exact input')
     axioms, failed = ctx.prove(['C10/Properties.v'])
-    ncases = 150 if quick else 2500
+    ncases = 130 if quick else 2500
     cases = corpus_cases() + [gen_case(ctx.rng, i, quick) for i in range(ncases)]
     dis, hits = explore(ctx, cases, 'main')
     report_hits(ctx, hits)
@@ -976,6 +1189,8 @@ def run(ctx):
         'SAMPLED ONLY (pycalphad, no Coq model exists): agreement of dMudX with numerical derivatives of equilibrium chemical potentials, '
         'positive definiteness, real positive eigenvalues, Darken on the shipped databases (Al-Zr, Ni-Cr-Al in two element orders, Fe-Cr-Ni, '
         'Al-Mg-Si, Cu-Ti); "stable" there means the numerically differentiated curvature is positive definite',
+        'ORACLE ONLY (not modelled in Coq): functions attached through setMobility/setDiffusivity and the phase= argument select the right callables '
+        '(scripted two-phase GeneralThermodynamics with getLocalEq overridden; Fe-Cr-Ni FCC_A1/BCC_A2 in the sampled part)',
         'the hand-written model coq/C10/Model.v is tied to the code only through this correspondence']
     ctx.cov['trusted_base'] += ['Coq 8.16.1 kernel and vm_compute', 'hand-written model coq/C10/Model.v + correspondence harness harness/c10.py + coq/C10/Corr.v',
                                 'float -> Q transport (hexadecimal float literals, Prim2SF) and output parser in harness/common.py',
